@@ -12,6 +12,10 @@ def main():
     ap.add_argument("--replay", default=None)
     a = ap.parse_args()
     seed = int(os.environ.get("VERIF_SEED", "0") or 0)
+    if "PYTHONHASHSEED" not in os.environ:
+        # in-process compilations run under a hash seed derived from VERIF_SEED (pool workers use further ones)
+        os.environ["PYTHONHASHSEED"] = str((seed * 2654435761 + 17) % 4294967295)
+        os.execv(sys.executable, [sys.executable] + sys.argv)
     prop = a.prop.upper()
     try:
         mod = importlib.import_module(prop.lower())
